@@ -711,7 +711,7 @@ func (x *gen) bigMaps() {
 }
 
 func main() {
-	tr.Main("C04: exhaustive histories of up to 3 (quick) / 4 (thorough) Set/Delete/Clear over 3 keys each followed by Len, Keys, String, Get of every key and First/Last/Seek of every target (below, present, between, above) with full Next and Prev sweeps, under cmp.Compare and (one level shallower) under comparators returning arbitrary magnitudes (a-b, 7*(b-a), MinInt/MaxInt); the same battery on Map[string,string] with the empty string as a key and as a value; random histories of up to 60 operations over small and large key spaces under natural, reversed, modular, magnitude (a-b, 3*(a-b), (a-b)<<32, b-a, 7*(b-a), modular differences, MinInt/MaxInt) comparators and on string keys under strings.Compare, reversed, length-difference, byte-difference and first-byte comparators, mixing edits with lookups, Keys, String, iterators in 3 registers (First, Last, Seek, Iter.Seek re-synchronization after edits, Next/Prev steps and sweeps from seek positions), a fifth of the operations through a copy of the Map value; deleting, updating and inserting while iterating with Iter.Seek re-synchronization after every edit; ascending/descending bulk loads to 300 keys; big maps (round 3, macro operations B/D/Q of scale.go): growth order (ascending, descending, outside-in, inside-out, random, ideal breadth-first) x delete order (low end, high end, outside-in, inside-out, ideal breadth-first and its reverse, random, evenly spaced survivors, and - measured through the comparator calls of GetOK on a NewFunc map - shallowest/deepest first by real depth and keeping the deepest root-to-leaf paths) with 2^k-1, 2^k, 2^k+1 keys for k = 8..12 (thorough ..13), shrunk in stages to 1/2, 1/4, the exact size at which the tree below is not yet rebuilt (about 1/8 of the peak) and 1/16, then regrown with new and overwritten keys; after every stage from EVERY key Seek, GetOK/Get, Next and Prev steps, a Next/Prev zig-zag, Iter.Seek of a moved iterator, Seek of the absent key just above, and full First/Next and Last/Prev sweeps folded into digests, plus explicit iterator sessions at both ends, in the middle and at random keys; the zero Map (both key types) with every read operation, Delete, Clear, every iterator constructor and move, and with Set. A case is non-trivial when it contains at least one edit and one observation; distinct = distinct input lines.",
+	tr.Main("C04: exhaustive histories of up to 3 (quick) / 4 (thorough) Set/Delete/Clear over 3 keys each followed by Len, Keys, String, Get of every key and First/Last/Seek of every target (below, present, between, above) with full Next and Prev sweeps, under cmp.Compare and (one level shallower) under comparators returning arbitrary magnitudes (a-b, 7*(b-a), MinInt/MaxInt); the same battery on Map[string,string] with the empty string as a key and as a value; random histories of up to 60 operations over small and large key spaces under natural, reversed, modular, magnitude (a-b, 3*(a-b), (a-b)<<32, b-a, 7*(b-a), modular differences, MinInt/MaxInt) comparators and on string keys under strings.Compare, reversed, length-difference, byte-difference and first-byte comparators, mixing edits with lookups, Keys, String, iterators in 3 registers (First, Last, Seek, Iter.Seek re-synchronization after edits, Next/Prev steps and sweeps from seek positions), a fifth of the operations through a copy of the Map value; deleting, updating and inserting while iterating with Iter.Seek re-synchronization after every edit; ascending/descending bulk loads to 300 keys; big maps (round 3, macro operations B/D/Q of scale.go): growth order (ascending, descending, outside-in, inside-out, random, ideal breadth-first) x delete order (low end, high end, outside-in, inside-out, ideal breadth-first and its reverse, random, evenly spaced survivors, and - measured through the comparator calls of GetOK on a NewFunc map - shallowest/deepest first by real depth and keeping the deepest root-to-leaf paths) with 2^k-1, 2^k, 2^k+1 keys for k = 8..12 (thorough ..13), shrunk in stages to 1/2, 1/4, the exact size at which the tree below is not yet rebuilt (about 1/8 of the peak) and 1/16, then regrown with new and overwritten keys; after every stage from EVERY key Seek, GetOK/Get, Next and Prev steps, a Next/Prev zig-zag, Iter.Seek of a moved iterator, Seek of the absent key just above, and full First/Next and Last/Prev sweeps folded into digests, plus explicit iterator sessions at both ends, in the middle and at random keys; the zero Map (both key types) with every read operation, Delete, Clear, every iterator constructor and move, and with Set.; round 4: observer; edit; the whole observer set (a lookup, Seek to every target, iterators moved and left behind, Len, Keys, String - then a Set that replaces a value or an equivalent key, a new neighbour, Delete, Delete and Set again, the same Len by another key, Clear, Clear or key-by-key drain and the same keys again - then every observer, each part through the Map or its copy) on int and string maps under plain, magnitude and coarse comparators; a big map drained and a small one after it; every map size 0..600 with the stage at which the tree below is not yet rebuilt; Map[string,string] whose keys and values are empty, only blanks, begin or end with blanks, contain [ ] : blank tab newline NUL no-break space ~ % _ in the first, a middle and the last entry, String() compared byte by byte. A case is non-trivial when it contains at least one edit and one observation; distinct = distinct input lines.",
 		exec, func(g *tr.G) {
 			x := &gen{g}
 			r := g.R
